@@ -97,6 +97,8 @@ def gen_plan(seed, tier="quick"):
         "k_filter": k_filter, "reject": reject, "wrot": wrot, "wrot_seed": r.randrange(1 << 30),
         "ns2add": r.choice([0, 0, 0, 7, 100, (-ns) % 512]), "drop_sync": r.random() < 0.3,
         "default_k": nap >= 64 and r.random() < 0.7, "ntr_pad": r.choice([4, 8, min(nap, 12)]),
+        "form": r.choice(["bin", "bin", "cbin"]),           # the input recording may be compressed
+        "qc_path": r.random() < 0.2,                        # QC files saved to a separate directory
         "rerun": r.random() < 0.15,      # an earlier plain run left its output and QC files in the same directory
         "append": r.random() < 0.2, "ns_first": r.randrange(12000, 16000) if (reject and r.random() < 0.7) else r.randrange(1500, 9000), "nproc_first": r.choice([1, 2, 3]),
         "p_switch": r.choice([0.0, 0.0, 0.01, 0.05, 0.2, 0.5, 1.0]),
@@ -156,6 +158,10 @@ def _destripe_call(plan, binf, out, nproc, append, W):
               ns2add=plan["ns2add"], append=append)
     if plan["drop_sync"]:
         kw["nc_out"] = W["ncv"]
+    if plan.get("qc_path"):
+        qc = Path(out).parent / "qc"
+        qc.mkdir(exist_ok=True)
+        kw["output_qc_path"] = qc
     return voltage.decompress_destripe_cbin(binf, **kw)
 
 
@@ -250,8 +256,13 @@ def _run(plan, base):
     nap, ns = plan["nap"], plan["ns"]
     O = world.make_data(plan["data_seed"], ns, nap, saturate=plan["saturate"], amp=plan["amp"],
                         maxint=plan["maxint"], smooth=True)
-    rec = base / "rec"
-    binf = world.write_recording(rec, STEM, plan["fixture"], O)
+    rec = base / "rec_oracle"
+    world.write_recording(rec, STEM, plan["fixture"], O)            # pristine copy for the oracle
+    binf = world.write_recording(base / "rec", STEM, plan["fixture"], O)
+    if plan.get("form") == "cbin":
+        s2 = spikeglx.Reader(binf)
+        binf = s2.compress_file(keep_original=False, chunk_duration=rng_of(plan["seed"]).choice([0.05, 0.13, 1.0]), n_threads=1)
+        s2.close()
     W = {"root": base, "fs": fs, "ncv": nap, "nc": nap + 1}
     if _reject(plan):
         n_in = []
@@ -274,9 +285,10 @@ def _run(plan, base):
     nbatches = max(0, -(-(ns - plan["nbatch"]) // stride)) + 1
     stats["config"][f"nproc={plan['nproc']}"] = 1
     stats["config"]["kfilt" if _k_filter(plan, W) else "car"] = 1
-    for key in ("append", "drop_sync"):
-        if plan[key]:
+    for key in ("append", "drop_sync", "qc_path", "rerun"):
+        if plan.get(key):
             stats["config"][key] = 1
+    stats["config"]["input_" + plan.get("form", "bin")] = 1
     if _reject(plan):
         stats["config"]["reject"] = 1
     if plan["wrot"] != "none":
@@ -295,6 +307,10 @@ def _run(plan, base):
         if plan["append"] or plan.get("rerun"):
             O1 = world.make_data(plan["data_seed"] ^ 0x77, plan["ns_first"], nap, amp=plan["amp"], maxint=plan["maxint"], smooth=True)
             bin1 = world.write_recording(base / "rec1", STEM, plan["fixture"], O1)
+            if plan.get("form") == "cbin":
+                s2 = spikeglx.Reader(bin1)
+                bin1 = s2.compress_file(keep_original=False, chunk_duration=0.1, n_threads=1)
+                s2.close()
         for tag, nproc, schedule in (("ref", 1, None),
                                      ("sim", plan["nproc"], {"seed": plan["sched_seed"], "p_switch": plan["p_switch"],
                                                              "victim": plan["victim"], "order": plan["order"], "trace": plan.get("trace")})):
@@ -431,9 +447,10 @@ def _check_run(plan, tag, nproc, O, data, offset, first_bytes, nc_out, res, od, 
         if pad.shape[0] != plan["ns2add"] or not (pad == arr[ns - 1]).all():
             raise Violation("C06.a", f"{sigbase}:padding", "padding rows are not a repetition of the last sample")
     # g: QC files
-    sat_f = od / "_iblqc_ephysSaturation.samples.npy"
-    rms_f = od / "_iblqc_ephysTimeRmsAP.rms.npy"
-    ts_f = od / "_iblqc_ephysTimeRmsAP.timestamps.npy"
+    qd = od / "qc" if plan.get("qc_path") else od
+    sat_f = qd / "_iblqc_ephysSaturation.samples.npy"
+    rms_f = qd / "_iblqc_ephysTimeRmsAP.rms.npy"
+    ts_f = qd / "_iblqc_ephysTimeRmsAP.timestamps.npy"
     for f in (sat_f, rms_f, ts_f):
         if not f.exists():
             raise Violation("C06.g", f"{sigbase}:qc-missing", f"{f.name} missing")
@@ -502,7 +519,7 @@ def _check_reference(plan, O, out, offset, nc_out, fs, rec, sigbase, W):
 
 
 def shrink_candidates(plan):
-    for key, val in (("append", False), ("saturate", []), ("wrot", "none"), ("reject", False), ("ns2add", 0),
+    for key, val in (("append", False), ("rerun", False), ("form", "bin"), ("qc_path", False), ("saturate", []), ("wrot", "none"), ("reject", False), ("ns2add", 0),
                      ("drop_sync", False), ("default_k", False), ("order", None), ("victim", None), ("p_switch", 0.0),
                      ("k_filter", False)):
         if plan.get(key) != val:
